@@ -478,4 +478,4 @@ var primaryProp = pbt.Prop[Plan]{ID: "C05", Name: "primary", Gen: genPlan, Run: 
 
 func TestProp_primary(t *testing.T) { primaryProp.Check(t) }
 
-func TestReplay(t *testing.T) { pbt.Replay(t, primaryProp, replicaProp) }
+func TestReplay(t *testing.T) { pbt.Replay(t, primaryProp, replicaProp, sqlCrashProp) }
